@@ -621,6 +621,31 @@ def c06(tier, seed, scripts):
                                  "kind": kind, "dir": "fwd", "ops": ["write", "lose", later], "family": "connection-lost"},
                         "steps": steps})
             k += 1
+    # the link between the endpoints is cut (a relay that drops every packet): what is written from
+    # then on cannot be acknowledged, so no finish - first or repeated after an abandoned one - may
+    # report success before the link is back; afterwards a reset still takes effect / a finish succeeds
+    for (role, kind, direction) in layouts[:4]:
+        for variant in ("reset", "finish"):
+            for abandon in (True, False):
+                code = C06_CODES[(k * 5 + 1) % len(C06_CODES)]
+                steps = [step("app", "open_" + kind, tag="s"), step("app2", "accept_" + kind, tag="s", ms=5000), sleep(20),
+                         step("app", "write", tag="s", len=5, salt=15, ms=5000), sleep(60),
+                         step("app", "link", tag="s", cut=True),
+                         step("app", "write", tag="s", len=4, salt=15, ms=3000)]
+                if abandon:
+                    steps.append(step("app", "finish", tag="s", poll_once=True))
+                steps.append(step("app", "finish", tag="s", ms=400))
+                if variant == "reset":
+                    steps += [step("app", "reset", tag="s", code=v62(code)), step("app", "link", tag="s", cut=False), sleep(1500)]
+                else:
+                    steps += [step("app", "link", tag="s", cut=False), step("app", "finish", tag="s", ms=8000)]
+                steps.append(step("app2", "read", tag="s", buf=4096, salt=15, ms=4000))
+                ops = ["write", "cut", "write", "finish"] + (["reset", "uncut"] if variant == "reset" else ["uncut", "finish"]) + ["read"]
+                out.append({"scn": "C06-%05d" % (base + k), "role": role, "peer": "wt", "cfg": {"link": True},
+                            "meta": {"prop": "C06", "sside": "app", "rside": "app2", "stag": "s", "rtag": "s", "nops": len(ops),
+                                     "kind": kind, "dir": "fwd", "ops": ops, "family": "link-cut"},
+                            "steps": steps})
+                k += 1
     # the BiStream adapter as the sending side: shutdown() is its finish
     for role in ("client", "server"):
         for ln in (1, 50, 70000):
@@ -1341,6 +1366,13 @@ def c07(tier, seed):
                              "healthy": healthy, "accepts": accepts},
                     "steps": steps})
         n += 1
+    # streams of a reserved (GREASE) HTTP/3 type, type complete, then silence / some bytes and silence:
+    # they are not WebTransport streams at all and may stay open for ever without holding anything
+    gk = [(r, p, k) for r in ("server", "client") for p in ("grease_silent", "grease_data") for k in (1, 4, 5, 9)]
+    if tier == "quick":
+        gk = [g for g in gk if (g[0] == "server" and g[2] in (4, 5)) or (g[0] == "client" and g[1] == "grease_silent" and g[2] == 9)]
+    for (role, pos, k) in gk:
+        plans.append((role, "uni", pos, k, "stalled_first"))
     for (role, kind, pos, k, order) in plans:
         steps = []
         healthy, accepts = [], []
@@ -1375,6 +1407,10 @@ def c07(tier, seed):
             elif pos == "pre_silent":
                 steps.append(step("peer", "write", tag=tag, bytes=pre))
                 steps.append(step("app", "accept_" + kind, tag="x" + tag, ms=5000))   # accepted, never read
+            elif pos == "grease_silent":
+                steps.append(step("peer", "write", tag=tag, bytes=varint(0x21 + 0x1F * (i * 3))))
+            elif pos == "grease_data":
+                steps.append(step("peer", "write", tag=tag, bytes=varint(0x21 + 0x1F * (40 + i)) + [9, 9, 9, i]))
             elif pos == "window":
                 steps.append(step("peer", "write", tag=tag, bytes=pre))
                 steps.append(step("peer", "write", tag=tag, len=200000, salt=i, ms=300))
